@@ -75,6 +75,20 @@ func DeepShapes(depths []int, f func(s SizeShape)) {
 			nn := append(append([]string{}, names...), "back", "bk")
 			f(SizeShape{fmt.Sprintf("chain-%d-then-level-%d", D, L), D, dd, nn})
 		}
+		// deep AND wide: the root has two children and each carries a chain down to depth D (two nodes at the same deep
+		// level whose ancestors differ only next to the root)
+		if D >= 3 {
+			df, nf := []int{1}, []string{"r"}
+			for _, br := range []string{"a", "b"} {
+				for l := 2; l <= D; l++ {
+					df = append(df, l)
+					nf = append(nf, fmt.Sprintf("%s%d", br, l))
+				}
+				df = append(df, D)
+				nf = append(nf, br+"leaf")
+			}
+			f(SizeShape{fmt.Sprintf("chain-fork-%d", D), D, df, nf})
+		}
 		// a leaf before the chain continues, at every level ("comb"): every inner node has two children
 		var dc []int
 		var nc []string
@@ -135,5 +149,34 @@ func WideShapes(widths []int, f func(s SizeShape)) {
 				f(SizeShape{fmt.Sprintf("wide-%d-child-%d-written-again-under-level-%d", W, i, base), W, d, names})
 			}
 		}
+	}
+}
+
+// ManyRootShapes: R roots with one child each, for every R.
+func ManyRootShapes(counts []int, f func(s SizeShape)) {
+	for _, R := range counts {
+		var d []int
+		var names []string
+		for i := 0; i < R; i++ {
+			d = append(d, 1, 2)
+			names = append(names, fmt.Sprintf("root%04d", i), "k")
+		}
+		f(SizeShape{fmt.Sprintf("roots-%d", R), R, d, names})
+	}
+}
+
+// SquareShapes: wide AND wide: a root with W children that have W children each (W*W+W+1 nodes), for every W.
+func SquareShapes(widths []int, f func(s SizeShape)) {
+	for _, W := range widths {
+		d, names := []int{1}, []string{"r"}
+		for i := 0; i < W; i++ {
+			d = append(d, 2)
+			names = append(names, fmt.Sprintf("c%04d", i))
+			for j := 0; j < W; j++ {
+				d = append(d, 3)
+				names = append(names, fmt.Sprintf("g%04d", j))
+			}
+		}
+		f(SizeShape{fmt.Sprintf("square-%d", W), W, d, names})
 	}
 }
